@@ -333,6 +333,40 @@ Qed.
 
 (* forward SIP keeps only orders >= 2 (mindeg = 1), the inverse keeps order >= 1 (mindeg = 0) *)
 
+(* ---------------- the X_ORDER keywords: what a standard reader evaluates ---------------- *)
+(* a reader of the SIP convention sums the coefficients with i + j <= A_ORDER (AP_ORDER for the inverse) and ignores the others *)
+Definition reader_terms (order : nat) (l : list term) : list term := filter (fun t => let '(i, j, _, _) := t in Nat.leb (i + j) order) l.
+Definition reader_evalx (order : nat) (u v : Q) (l : list term) : Q := evalx u v (reader_terms order l).
+Definition reader_evaly (order : nat) (u v : Q) (l : list term) : Q := evaly u v (reader_terms order l).
+
+Lemma reader_terms_all order l :
+  (forall i j x y, In (i, j, x, y) l -> (i + j <= order)%nat) -> reader_terms order l = l.
+Proof.
+  induction l as [|[[[i j] x] y] rest IH]; intros H; [reflexivity|]. cbn [reader_terms filter].
+  assert (E : Nat.leb (i + j) order = true) by (apply Nat.leb_le; apply (H i j x y); now left).
+  rewrite E. f_equal. apply IH. intros i' j' x' y' Hin. apply (H i' j' x' y'). now right.
+Qed.
+
+(* the order keyword written beside the coefficients must be the degree of the polynomial they come from: then nothing is dropped *)
+Theorem order_keyword_covers_coefficients : forall order u v l,
+  (forall i j x y, In (i, j, x, y) l -> (i + j <= order)%nat) ->
+  reader_evalx order u v l = evalx u v l /\ reader_evaly order u v l = evaly u v l.
+Proof. intros order u v l H. unfold reader_evalx, reader_evaly. now rewrite (reader_terms_all order l H). Qed.
+
+(* every keyword that _store_2D_coefficients writes for a fit of degree deg is within that degree *)
+Theorem stored_within_order : forall mindeg deg i j, In (i, j) (stored mindeg deg) -> (i + j <= deg)%nat.
+Proof. intros mindeg deg i j H. apply stored_iff in H. lia. Qed.
+
+(* ... and a smaller order keyword (e.g. the forward degree written as AP_ORDER for an inverse fit of higher degree) silently drops
+   terms: the header then describes another inverse than the one that was fitted and whose error is reported *)
+Theorem order_keyword_too_small_refuted :
+  exists order u v l, (exists i j x y, In (i, j, x, y) l /\ (order < i + j)%nat) /\ ~ reader_evalx order u v l == evalx u v l.
+Proof.
+  exists 2%nat, 1, 1, [(1%nat, 0%nat, 1, 0); (3%nat, 1%nat, 1 # 2, 0)]. split.
+  - exists 3%nat, 1%nat, (1 # 2), 0. split; [right; now left | cbn; lia].
+  - vm_compute. discriminate.
+Qed.
+
 (* ---------------- header conventions ---------------- *)
 Local Open Scope Z_scope.
 (* CRPIX is the 0-based reference pixel + 1; NAXISi = int(upper bound) + 1 for a box with upper bound >= 0 *)
